@@ -3,6 +3,7 @@ import Dicom.Spec.StatusSpec
 import Dicom.Spec.Table910
 import Dicom.Model.Framing
 import Dicom.Model.Dimse
+import Dicom.Model.Limits
 /-! Line-protocol driver: one op per input line, one output line per op.
 Imports models and specifications only (never Generated or Props), core Lean only. -/
 open Dicom
@@ -129,6 +130,10 @@ def step (line : String) : String :=
     match (groups.mapM fun g => (g.splitOn ",").mapM parseFrag) with
     | some gs => " ".intercalate (decTrace (noDs = "1") {} gs)
     | none => "bad-op"
+  | ["limits", own, peer] =>
+    match own.toNat?, peer.toNat? with
+    | some own, some peer => s!"acc={acceptorLimit own peer} ann={acceptorAnnounce own peer} req={requesterLimit own peer}"
+    | _, _ => "bad-op"
   | _ => "bad-op"
 
 partial def loop (h : IO.FS.Stream) (out : IO.FS.Stream) : IO Unit := do
